@@ -191,17 +191,17 @@ def ntop6Loop (words : List Nat) (best : Option (Nat × Nat)) : Nat → Nat → 
   | f + 1, i =>
     if i ≥ 8 then []
     else
-      let inBest := match best with
-        | some (b, l) => i ≥ b ∧ i < b + l
-        | none => False
+      let inBest : Bool := match best with
+        | some (b, l) => decide (i ≥ b) && decide (i < b + l)
+        | none => false
       if inBest then
         (if (best.map (·.1)) = some i then [58] else []) ++ ntop6Loop words best f (i + 1)
       else
         let sep : Bytes := if i ≠ 0 then [58] else []
-        let encapsulated := i = 6 ∧
+        let encapsulated : Bool := i == 6 &&
           (match best with
-           | some (b, l) => b = 0 ∧ (l = 6 ∨ (l = 5 ∧ words.getD 5 0 = 0xffff))
-           | none => False)
+           | some (b, l) => b == 0 && (l == 6 || (l == 5 && words.getD 5 0 == 0xffff))
+           | none => false)
         if encapsulated then
           sep ++ ntop4 (words.getD 6 0 * 65536 + words.getD 7 0)
         else
